@@ -231,6 +231,7 @@ func c07Addresses() *core.Space {
 		func() *ucfg.Config { return mustCfg(L{1, "x", M{"k": 1}}) },
 		func() *ucfg.Config { return mustCfg(M{"d": M{"l": L{1, 2}}, "l": L{M{"x": 1}}}) },
 		func() *ucfg.Config { return mustCfg(M{"p": "prim", "a": nil}) },
+		func() *ucfg.Config { return &ucfg.Config{} }, // the zero value
 	}
 	type op struct {
 		Name string
@@ -255,6 +256,8 @@ func c07Addresses() *core.Space {
 		{"SetChild", func(c *ucfg.Config, n string, i int, o []ucfg.Option) {
 			c.SetChild(n, i, mustCfg(M{"q": 1}), o...)
 		}},
+		{"SetChild(nil)", func(c *ucfg.Config, n string, i int, o []ucfg.Option) { c.SetChild(n, i, nil, o...) }},
+		{"SetChild(zero Config)", func(c *ucfg.Config, n string, i int, o []ucfg.Option) { c.SetChild(n, i, &ucfg.Config{}, o...) }},
 		{"Merge(key)", func(c *ucfg.Config, n string, i int, o []ucfg.Option) { c.Merge(M{n: i}, o...) }},
 		{"NewFrom(key)", func(c *ucfg.Config, n string, i int, o []ucfg.Option) {
 			if nc, err := ucfg.NewFrom(M{n: M{n: i}}, o...); err == nil {
@@ -416,6 +419,33 @@ func c07Targets() []func() interface{} {
 				A int `validate:"min=abc"`
 			}{}
 		},
+		func() interface{} {
+			return &struct {
+				A [2]int `validate:"required"`
+			}{}
+		},
+		func() interface{} {
+			return &struct {
+				A [2]int `validate:"nonzero"`
+			}{}
+		},
+		func() interface{} {
+			return &struct {
+				A map[string]int `validate:"required"`
+				X []int          `validate:"nonzero,min=1"`
+			}{}
+		},
+		func() interface{} { return &struct{ A ucfg.ConfigUnpacker }{} },
+		func() interface{} { return &struct{ A ucfg.Unpacker }{} },
+		func() interface{} { return &struct{ A ucfg.Validator }{} },
+		func() interface{} { return &struct{ A, X ucfg.Initializer }{} },
+		func() interface{} { var m *map[string]interface{}; return &m },
+		func() interface{} { var m *[]interface{}; return &m },
+		func() interface{} { var m **map[string]int; return &m },
+		func() interface{} { return *mustCfg(M{"a": 1}) }, // a Config by value (as target and as merge source)
+		func() interface{} { return struct{ A ucfg.Config }{A: *mustCfg(M{"a": 1})} },
+		func() interface{} { return []ucfg.Config{*mustCfg(M{"a": 1})} },
+		func() interface{} { return map[string]ucfg.Config{"a": *mustCfg(M{"a": 1})} },
 		// pre-filled targets whose existing value is held by value in an interface or behind a pointer in a collection
 		func() interface{} { return &struct{ A interface{} }{A: struct{ B int }{7}} },
 		func() interface{} { return &struct{ A interface{} }{A: &struct{ B int }{7}} },
